@@ -136,7 +136,9 @@ def build_tests(src, scratch, pkgs, race=False):
         out = os.path.join(bdir, name)
         cmd = [GO, "test", "-c", "-tags", "verif", "-vet=off", "-o", out]
         if race:
-            cmd.append("-race")
+            # the simulator runtime itself is not instrumented: its bookkeeping is serialised by the baton, which the
+            # race detector is deliberately not told about
+            cmd += ["-race", "-gcflags=github.com/olareg/olareg/internal/simrt=-race=false"]
         cmd.append("./" + pkg if pkg != "." else ".")
         rc, o = run(cmd, cwd=src, timeout=1200, check=False)
         if rc != 0:
